@@ -102,7 +102,7 @@ def falsify(ctx):
         vs = variants(rng, samples, ctx.n(4, 24))
         try:
             hit = check_case(samples, vs, cmps, registry)
-        except ZeroDivisionError:
+        except (ZeroDivisionError, stages.TooCostly):
             continue
         except Exception as e:  # noqa
             hit = {"kind": "pipeline-raises", "observed": f"{type(e).__name__}: {e}"}
@@ -118,5 +118,7 @@ def replay(ctx, hit):
     from ..worker import cmps_from
     try:
         return check_case(hit["samples"], [hit["variant"]], cmps_from(hit["cmps"]), stages.make_registry())
+    except stages.TooCostly:
+        raise
     except Exception as e:  # noqa
         return {"kind": "pipeline-raises", "observed": f"{type(e).__name__}: {e}"}
